@@ -4,6 +4,7 @@ import (
 	"bytes"
 	"fmt"
 	"io"
+	"reflect"
 
 	cose "github.com/veraison/go-cose"
 
@@ -100,12 +101,50 @@ func wsVerifyRefused(step int, op wsOp, s *wsSlot, slots []*wsSlot, fail wsFailF
 		}
 	}
 	stats.Class("ws/refused/verify")
-	return wsUnchanged(slots, before, fail, "C18+C19+C03:refused-operation-changed-object", "a refused "+what, step)
+	if e := wsUnchanged(slots, before, fail, "C18+C19+C03:refused-operation-changed-object", "a refused "+what, step); e != nil {
+		return e
+	}
+	// the same for the countersignatures hanging on the object: verified with other external data
+	csVer, err := libVerifier(wsCsKey, false)
+	if err != nil {
+		return err
+	}
+	for ci, cs := range s.csigs {
+		var other []byte
+		if len(cs.ext) == 0 {
+			other = []byte("not the countersigner's external data")
+		}
+		un := s.m.headers().Unprotected
+		var verr error
+		if cs.abbrev {
+			sig, ok := un[int64(12)].([]byte)
+			if !ok {
+				continue
+			}
+			verr = cose.VerifyCountersign0(csVer, s.m.parent((step+ci)%2 == 0), other, sig)
+		} else {
+			obj, ok := un[int64(11)].(*cose.Countersignature)
+			if !ok {
+				continue
+			}
+			verr = obj.Verify(csVer, s.m.parent((step+ci)%2 == 1), other)
+		}
+		if verr == nil {
+			if e := fail("C10+C03:countersignature-accepted-with-other-external-data", "step %d: a countersignature (abbreviated=%v) made with external data %x verifies with %x", step, cs.abbrev, cs.ext, other); e != nil {
+				return e
+			}
+		}
+		stats.Class("ws/refused/verify-countersignature")
+		if e := wsUnchanged(slots, before, fail, "C18+C10+C19:refused-operation-changed-object", "a refused countersignature verification (other external data)", step); e != nil {
+			return e
+		}
+	}
+	return nil
 }
 
 // wsBadInput derives bytes the decoder of kind must refuse from a valid encoding.
 func wsBadInput(kind refcose.Kind, last []byte, v int) ([]byte, string) {
-	switch v % 5 {
+	switch v % 8 {
 	case 0:
 		return append([]byte{}, last[:len(last)-1]...), "truncated"
 	case 1:
@@ -126,6 +165,20 @@ func wsBadInput(kind refcose.Kind, last []byte, v int) ([]byte, string) {
 	env, err := refcose.ParseEnv(kind, last)
 	if err != nil {
 		return append([]byte{}, last[:len(last)-1]...), "truncated"
+	}
+	if v%8 >= 5 {
+		// crit in an unprotected bucket: refused by the header rules after the protected bucket (and, in the
+		// signer variant, the body and every earlier signer) has been read
+		n := env.Arr.Items[1]
+		what := "crit-in-unprotected"
+		if sgs := env.Arr.Items[3]; v%8 >= 6 && kind == refcose.KSign && sgs.Major == 4 && len(sgs.Items) > 0 {
+			if sg := sgs.Items[len(sgs.Items)-1]; sg.Major == 4 && len(sg.Items) == 3 {
+				n, what = sg.Items[1], "crit-in-unprotected-of-last-signer"
+			}
+		}
+		out := append([]byte{}, last[:n.Start]...)
+		out = append(out, 0xa1, 0x02, 0x81, 0x04)
+		return append(out, last[n.End:]...), what
 	}
 	n := env.Arr.Items[3]
 	if kind == refcose.KSign {
@@ -149,7 +202,7 @@ func wsDecodeRefused(step int, op wsOp, src, dst *wsSlot, slots []*wsSlot, fail 
 	before := wsDumpAll(slots)
 	in, what := append([]byte{}, src.last...), "other-kind"
 	if dst.spec.Kind == src.spec.Kind {
-		in, what = wsBadInput(dst.spec.Kind, src.last, op.A+op.B)
+		in, what = wsBadInput(dst.spec.Kind, src.last, op.V)
 	}
 	buf := append([]byte{}, in...)
 	var err error
@@ -285,4 +338,101 @@ func wsCountersignRefused(step int, op wsOp, s *wsSlot, slots []*wsSlot, fail ws
 	}
 	stats.Class("ws/refused/countersign")
 	return wsUnchanged(slots, before, fail, "C18+C19+C10:refused-operation-changed-object", "a refused countersigning call", step)
+}
+
+// wsMaps lists the header maps of an object (body and signers) as map pointers.
+func wsMaps(s *wsSlot) []uintptr {
+	var out []uintptr
+	add := func(h *cose.Headers) {
+		if h.Protected != nil {
+			out = append(out, reflect.ValueOf(h.Protected).Pointer())
+		}
+		if h.Unprotected != nil {
+			out = append(out, reflect.ValueOf(h.Unprotected).Pointer())
+		}
+	}
+	add(s.m.headers())
+	if s.m.sm != nil {
+		for _, sg := range s.m.sm.Signatures {
+			if sg != nil {
+				add(&sg.Headers)
+			}
+		}
+	}
+	return out
+}
+
+// wsNoSharedMaps: what a decoder has just produced shares no header map with any other object
+// (nor two of its own layers with each other): a map is mutable, and the library itself writes
+// into header maps when it signs.
+func wsNoSharedMaps(step int, fresh *wsSlot, slots []*wsSlot, fail wsFailFn) error {
+	mine := wsMaps(fresh)
+	seen := map[uintptr]bool{}
+	for _, p := range mine {
+		if seen[p] {
+			return fail("C18+C19:decoded-layers-share-a-map", "step %d: two header buckets of one freshly decoded %v are the same Go map", step, fresh.spec.Kind)
+		}
+		seen[p] = true
+	}
+	for i, o := range slots {
+		if o == fresh {
+			continue
+		}
+		for _, p := range wsMaps(o) {
+			if seen[p] {
+				if e := fail("C18+C19:decoded-objects-share-a-map", "step %d: a header bucket of the %v just decoded is the same Go map as a bucket of object %d, which came out of an earlier constructor / decoder call", step, fresh.spec.Kind, i); e != nil {
+					return e
+				}
+			}
+		}
+	}
+	return nil
+}
+
+// wsDecodeDetachedInto: the encoding of src with its payload replaced by nil (detached content) arrives in a variable
+// in use. The decoder accepts it; the variable then holds what a fresh variable would hold, and does not verify
+// until the payload is supplied.
+func wsDecodeDetachedInto(step int, src, dst *wsSlot, slots []*wsSlot, content int, fail wsFailFn) error {
+	env, err := refcose.ParseEnv(src.spec.Kind, src.last)
+	if err != nil {
+		return nil
+	}
+	pl := env.Arr.Items[2]
+	in := append([]byte{}, src.last[:pl.Start]...)
+	in = append(in, 0xf6)
+	in = append(in, src.last[pl.End:]...)
+	buf := append([]byte{}, in...)
+	var derr error
+	switch {
+	case dst.m.s1 != nil:
+		derr = dst.m.s1.UnmarshalCBOR(buf)
+	case dst.m.u1 != nil:
+		derr = dst.m.u1.UnmarshalCBOR(buf)
+	default:
+		derr = dst.m.sm.UnmarshalCBOR(buf)
+	}
+	for i := range buf {
+		buf[i] ^= 0x5a
+	}
+	if derr != nil {
+		if e := fail("C07:detached-form-refused", "step %d: the %v decoder refuses a message whose payload is nil: %v\n%x", step, dst.spec.Kind, derr, in); e != nil {
+			return e
+		}
+		return errStopHistory
+	}
+	fresh, err := decodeLib(src.spec.Kind, in)
+	if err != nil {
+		return errStopHistory
+	}
+	if a, b := wsDump(dst), bridge.DumpValue(fresh.s1)+bridge.DumpValue(fresh.u1)+bridge.DumpValue(fresh.sm); a != b {
+		if e := fail("C19+C03:history-dependent", "step %d: decoding a message with detached payload into a used variable gives another value than decoding into a fresh one\nused =%s\nfresh=%s", step, a, b); e != nil {
+			return e
+		}
+	}
+	dst.spec, dst.ss, dst.vs = src.spec, src.ss, src.vs
+	dst.dec, dst.pure, dst.pEdit, dst.uEdit, dst.tmpl, dst.shared = true, false, 0, 0, false, false
+	dst.signed, dst.valid, dst.from, dst.tamper, dst.pre = true, false, append([]byte{}, in...), false, false
+	dst.last, dst.cver, dst.csigs = nil, content, nil
+	stats.Class("ws/decode-detached-into-used-variable")
+	return wsNoSharedMaps(step, dst, slots, fail)
 }
